@@ -24,7 +24,8 @@ RULE = ("Hypothesis-generated libraries inside the stated domain (1-5 cells, acy
         "reference with non-identity transform, non-simple path, property, polygon over the vertex limit}; distinct by case hash")
 ASSUMPTIONS = ["centre lines of simple paths and outlines of non-simple paths are taken from gdstk (element_center/to_polygons of the "
                "original): C01 judges their transport, C07/C08 their correctness",
-               "array lattices whose vectors are off-grid are compared with 1 grid unit tolerance per placement",
+               "array lattices whose vectors are off-grid: an AREF holds three separately rounded corner points, so placement (i, j) is "
+               "compared with the bound |e0||1-a-b| + (a+b)/2 grid units, a = i/cols, b = j/rows, e0 = rounding of the origin (at most 1.5)",
                "property order is not compared (set_gds_property prepends)"]
 
 
